@@ -400,6 +400,12 @@ func c12StructuredDocs(quick bool) [][]byte {
 	for _, d := range URLShapeDocs() {
 		add(d)
 	}
+	for _, d := range SinkByteDocs() {
+		add(d)
+	}
+	for _, d := range SinkLineShapeDocs() {
+		add(d)
+	}
 	// the same documents with CR LF line endings (model documents, tables, tab/space code mixtures, leak-prone documents)
 	for _, d := range ModelDocs() {
 		add(CRLF(d))
